@@ -250,6 +250,31 @@ def subset_inputs(ents, rng, maxfields, extra_defs=()):
     return out
 
 
+def boundary_inputs(ents, rng, auto):
+    """C02 / C04: every scalar entry (and every container of scalars one level up) fed with the values just inside and just outside
+    each bound of the target, a zero for the NonZero types, a negative number for the unsigned ones and one value of every kind"""
+    out = []
+    allkinds = [coregen.vnull(), coregen.vbool(True), coregen.vint(1), coregen.vneg(-1), coregen.vfloat(1.5), coregen.vstr("a"),
+                coregen.vseq([]), coregen.vmap([])]
+
+    def points(name):
+        if name not in coregen.RANGES:
+            return list(allkinds) + [coregen.vstr(""), coregen.vstr("ab"), coregen.vstr("\u00e9\u00e9")]
+        lo, hi = coregen.RANGES[name]
+        xs = {lo, lo + 1, hi, hi - 1, 0, -1, 1, 2**63 - 1, 2**63, 2**64 - 1, -2**63, 2**31, 2**32, 255, 256, 127, 128, -128, -129}
+        xs |= {lo - 1, hi + 1}
+        return [coregen.vnum(x) for x in sorted(xs) if -2**63 <= x <= 2**64 - 1] + [coregen.vneg(0), coregen.vneg(5), coregen.vneg(300)] + allkinds
+
+    for eid, ty in ents:
+        if ty[0] == "scalar":
+            for v in points(ty[1]):
+                out.append({"ty": eid, "val": v, "src": "ov", "grp": "start", "perm": False, "auto": auto, "perms": []})
+        elif ty[0] in ("vec", "opt", "box") and ty[1][0] == "scalar":
+            for v in points(ty[1][1]):
+                out.append({"ty": eid, "val": coregen.vseq([v, v]) if ty[0] == "vec" else v, "src": "ov", "grp": "start", "perm": False, "auto": auto, "perms": []})
+    return out
+
+
 def gen_inputs(pid, tier, seed, extra_defs=(), extra_entries=()):
     rng = random.Random(seed * 7919 + sum(ord(c) for c in pid))
     ents, table = coregen.entries(extra_defs, extra_entries)
@@ -277,6 +302,8 @@ def gen_inputs(pid, tier, seed, extra_defs=(), extra_entries=()):
                               1 if prof["perms"] else 0, extra_defs)
     if pid in ("C04", "C06", "C02", "C01", "C03") or tier == "thorough":
         recs += positional_inputs(ents, rng, extra_defs)
+    if pid in ("C02", "C04", "C12") or tier == "thorough":
+        recs += boundary_inputs(ents, rng, {"prefix_cap": 2, "all_upto": 0, "random": 0, "builtin": pid != "C02"})
     if pid == "C08" or (tier == "thorough" and pid in ("C02", "C07")):
         recs += subset_inputs(ents, rng, 3 if tier == "quick" else 4, extra_defs)
     if pid == "C15":
